@@ -453,14 +453,14 @@ impl<B: ByteOrder> StringDecoder for Utf16Decoder<B> {
         let mut paired_buf: Vec<u16> = vec![0; position / 2];
 
         // Decode the data into the buffer
-        B::read_u16_into(&data[.. position], &mut paired_buf);
+        B::read_u16_into(&data[.. paired_buf.len() * 2], &mut paired_buf);
 
         // Convert the buffer of u16 values into a String
         let result = String::from_utf16(&paired_buf).map_err(|e| PacketBad.context(e))?;
 
         // Update the cursor position
-        // The +2 accounts for the delimiter
-        *cursor += position + 2;
+        // The +2 accounts for the delimiter (if there is none, stop at the end of the data)
+        *cursor += (position + 2).min(data.len());
 
         Ok(result)
     }
